@@ -866,7 +866,7 @@ def np_einsum(it, expr, *ops, **k):
 
 
 @np_fn('argwhere', 'flatnonzero', 'nonzero', 'unique', 'isin', 'setdiff1d', 'argmax', 'argmin', 'sort', 'searchsorted', 'diff',
-       'union1d', 'intersect1d', 'count_nonzero', 'nditer', 'pad', 'roll', 'flip', 'cross', 'tensordot', 'triu', 'tril')
+       'union1d', 'intersect1d', 'count_nonzero', 'roll', 'flip', 'cross', 'tensordot', 'triu', 'tril')
 def np_unsupported(it, *a, **k):
     # concrete-only fallbacks
     raise Unsupported('numpy function without a contract in this position')
@@ -1004,7 +1004,41 @@ def np_dtype(it, t):
 
 @np_fn('finfo')
 def np_finfo(it, *a):
-    raise Unsupported('np.finfo (floating-point property)')
+    # floating-point format constants are abstract positive reals (their values are outside the real-arithmetic model)
+    tiny, eps = z3.Real('finfo_tiny'), z3.Real('finfo_eps')
+    V._side(z3.And(tiny > 0, eps > 0, tiny < 1, eps < 1))
+    return Obj(None, {'tiny': tiny, 'eps': eps}, tag='finfo')
+
+
+S.OBJ_ATTR['finfo'] = lambda it, o, attr: o.fields.get(attr, NotImplemented)
+
+
+@np_fn('pad')
+def np_pad(it, a, pad_width, mode='constant', constant_values=0, **k):
+    a = a if is_arr(a) else to_carr(a)
+    if not isinstance(a, CArr):
+        raise Unsupported('np.pad on a symbolic-shape array (index-map contract needed)')
+    def cw(x):
+        if isinstance(x, CArr):
+            return x.data.tolist()
+        if isinstance(x, (list, tuple)):
+            return [cw(y) for y in x]
+        return conc(x)
+    pw = cw(pad_width)
+    idx = np.arange(a.size).reshape(a.shape)
+    if mode == 'constant':
+        pidx = np.pad(idx, pw, mode='constant', constant_values=-1)
+        out = np.empty(pidx.shape, dtype=object)
+        flat = a.data.reshape(-1)
+        for o in np.ndindex(*pidx.shape):
+            out[o] = flat[pidx[o]] if pidx[o] >= 0 else constant_values
+        return CArr(out)
+    pidx = np.pad(idx, pw, mode=mode)
+    flat = a.data.reshape(-1)
+    out = np.empty(pidx.shape, dtype=object)
+    for o in np.ndindex(*pidx.shape):
+        out[o] = flat[pidx[o]]
+    return CArr(out)
 
 
 @np_fn('log10', 'sin', 'cos', 'tan', 'arctan2', 'arctan', 'tanh')
